@@ -498,7 +498,8 @@ class StateManager:
             logw, _ = self.compute_logw_and_logz(1.0)
             self._results_dict["logw"] = logw
 
-        return self._results_dict
+        # Hand out copies: the cached arrays must not be reachable by the caller
+        return {k: self._ensure_copy(v) for k, v in self._results_dict.items()}
 
     def to_dict(self) -> dict:
         """
